@@ -32,7 +32,7 @@ var cfgs = map[string]propCfg{
 		rule: "one evaluation = one seeded schedule of one generated injector, fault-free; the returned term (the whole evaluation tree), the multiset of provider invocations and every provider's received argument terms are compared with a sequential reference interpreter of the declaration; families = the same DAG rendered with different Async subsets, Set groupings and declaration orders must yield the same term. distinct = distinct event-log hashes"},
 	"C03": {prof: progen.Profile{Name: "C03", Families: true, NoFallible: false, RiskyShapes: 60}, quickProgs: 400, quickRuns: 200, thoroughProgs: 600, thoroughBatch: 10, thoroughRuns: 1500,
 		rule: "one evaluation = one seeded schedule, fault-free, no cancellation; the run must reach the injector's return (quiescence before = deadlock), never close a closed/nil channel, and have every started thread exited at the return event. distinct = distinct event-log hashes"},
-	"C05": {prof: progen.Profile{Name: "C05", Families: true, MinAsyncFree: 1, WantAsync: true, NoFallible: true, RiskyShapes: 30}, quickProgs: 400, quickRuns: 36, thoroughProgs: 600, thoroughBatch: 10, thoroughRuns: 120,
+	"C05": {prof: progen.Profile{Name: "C05", Families: true, MinAsyncFree: 1, WantAsync: true, RiskyShapes: 30}, quickProgs: 400, quickRuns: 36, thoroughProgs: 600, thoroughBatch: 10, thoroughRuns: 120,
 		rule: "one evaluation = one run under the stall adversary: every Async provider parks inside its function and is released only at global quiescence; all needed input-free Async providers must be inside at that point (that execution is the witness the property asks for). Programs have >= 1 input-free Async provider and >= 2 Async providers. distinct = distinct event-log hashes"},
 	"C06": {prof: progen.Profile{Name: "C06", Families: true, WantFallible: true, RiskyShapes: 30}, quickProgs: 400, quickRuns: 60, thoroughProgs: 600, thoroughBatch: 10, thoroughRuns: 400,
 		rule: "one evaluation = one seeded schedule under one failure plan: every needed fallible provider failing alone (enumerated), random pairs/triples, all; unneeded fallible providers set to fail too; select branches forced both ways when both are ready. Oracle: non-nil error, errors.Is one of the failures that occurred before the return (unless the caller cancelled), no dependent of a failed provider ever entered, the injector returns. distinct = distinct event-log hashes of runs in which a provider really failed"},
